@@ -829,6 +829,47 @@ def replay_dataset_names_sets(p):
     return _res(bad, {'dataset_names': [c.dataset_name for c in chans]})
 
 
+def replay_dup_names(p):
+    """A frame listing two channels of one name (or one channel twice) with inline data: the write is refused, or the
+    file decodes with one slot per listed channel."""
+    _quiet()
+    from dliswriter import DLISFile
+    mode, n, chunk = p['args'][:3]
+    df = DLISFile()
+    lf = df.add_logical_file()
+    lf.add_origin('O', file_set_number=1, creation_time='2020/01/01 00:00:00')
+    i = lf.add_channel('I', data=np.arange(n, dtype=np.float64))
+    x0 = lf.add_channel('X', data=np.arange(n, dtype=np.int32) + 100)
+    x1 = lf.add_channel('X' if mode != 2 else 'Y', data=np.arange(n, dtype=np.int32) + 200)
+    chans = (i, x0, x0) if mode == 1 else (i, x0, x1)
+    path = fresh_tmp()
+    bad = ''
+    try:
+        lf.add_frame('F', channels=chans)
+        df.write(path, input_chunk_size=chunk, output_chunk_size=65536)
+        r = strict.parse_file(open(path, 'rb').read())
+        lfv = r['logical_files'][0]
+        errs, _ids = strict.check_logical_file(lfv)
+        if errs:
+            bad = '; '.join(errs[:2])
+        for rec, ob, pos in lfv.iflrs:
+            if rec.type == 0 and not bad:
+                num, q = strict.dec_uvari(rec.body, pos)
+                if len(rec.body) - q != 8 + 4 * 2:
+                    bad = (f'the frame lists {len(chans)} channels (16 bytes of slots per record), the frame data records '
+                           f'carry {len(rec.body) - q} bytes')
+    except strict.StrictError as e:
+        bad = f'strict reader: {e}'
+    except (ValueError, RuntimeError, TypeError, KeyError) as e:
+        bad = '' if mode != 2 else f'distinct names refused: {e}'
+    finally:
+        try:
+            os.remove(path)
+        except OSError:
+            pass
+    return _res(bad, {'mode': mode, 'rows': n})
+
+
 def replay_declared_count(p):
     """Declared length of the record sequence against the records it yields (deterministic), on the real package."""
     _quiet()
